@@ -16,6 +16,8 @@ import z3
 from symx.core import SInt, cur, fresh_int, is_sym, zi
 from symx.harness import stubs_description
 
+from props import alias_common as _alias
+
 ID = "C16"
 
 
@@ -108,6 +110,7 @@ def jobs(tier, seed):
     if tier != "quick":
         big += [[70000, 1, 70000], [0, 32768, 0, 32768], [2 ** 17, 5]]
     out.append(dict(h="getitem", vectors=big, label="getitem:large members"))
+    out.append(dict(_alias.ALIAS_JOB))  # results must not alias library state, arguments or each other (props/alias_common.py)
     out[0]["twin"] = True
     return out
 
@@ -195,6 +198,7 @@ def _replay_getitem(job, inputs, notes):
 
 
 HARNESSES = {"getitem": dict(run=_run_getitem, replay=_replay_getitem, patch=dict(np_modules=[], stub_ascii=False))}
+HARNESSES["alias"] = _alias.alias_harness("C16")
 
 META = dict(
     functions=["MazeDatasetCollection.__init__", "__getitem__", "__len__", "dataset_lengths", "dataset_cum_lengths", "mazes", "update_self_config",
@@ -209,3 +213,5 @@ META = dict(
     outside=["indices outside 0 <= i < len (negative / too large)", "more than 5 members or lengths above 4"],
     assumptions=["three other collections (lengths [1,0,3], [0,2,0,0,2], [4]) are built and read before every measured access (fixed pre-history)", "items are identified by their position in the independently built concatenation"],
 )
+
+META.setdefault("degenerate", {})["alias"] = _alias.ALIAS_META
